@@ -193,6 +193,9 @@ func (ix *BM25SearchIndex) Add(id uint32, text string) error {
 	if _, exists := ix.docTokens[id]; exists {
 		ix.removeInternal(id)
 	}
+	// Re-adding a removed ID is an update: the new text must be searchable
+	// and must survive the next Flush.
+	ix.deletedDocs.Remove(id)
 
 	normText := normalize(text)
 	tokens := tokenize(normText)
